@@ -14,7 +14,7 @@ RULE = ("HTML: case = document tree (same generator and recorded ground truth as
         "only with exact name/value/value-token ranges, before = end of the previous sibling declaration/nested rule or body start, after = `;`+1 or the value end for "
         "a body-end-terminated declaration; select_item_css in the gaps between items = exactly the following/preceding selector (one range) or declaration (full, "
         "value, value tokens); inside an item = validity (ranges are recorded ranges inside [start, end]). Boundaries two-valued as in C09/C10. "
-        "Non-trivial: tag with ≥ 2 attributes of different value kinds, section with a nested rule between declarations, or a body-end-terminated declaration; distinct by (document, position).")
+        "Non-trivial: tag with ≥ 2 attributes of different value kinds, section with a nested rule between declarations, or a body-end-terminated declaration; distinct by (document, position). Value-less statements layer: generated stylesheets with `@include x;`, `@extend .a;`, `@import …;`, bare names among declarations — select_item_css next/previous at every position: item inside the document, every range ordered and inside the item.")
 ASSUME = ["value separators in generated declarations are blanks, commas and ` / ` (a comment inside a value is split by split_value as operators — not claimed either way)",
           "for a declaration terminated by `}` select_item_css may end the full range at the value end, at the brace or after it (the statement fixes name, value and tokens only)"]
 
@@ -252,7 +252,43 @@ def check_css(case, rec):
                     return
 
 
-CHECKS = {'html': check_html, 'css': check_css}
+def check_css_bare(case, rec):
+    """stylesheets that also contain value-less statements (`@include x;`, `@extend .a;`, `@import \"f\";`): what such a statement counts as is
+    not stated, so only the clauses that hold for whatever is returned are asserted — every range is ordered and lies inside the returned item, the item
+    inside the document"""
+    src = case['src']
+    n = len(src)
+    rec.cls('value-less-statements')
+    for pos in range(0, n + 1):
+        rec.evals(2)
+        rec.nontrivial(key=('b', src, pos))
+        for prev in (False, True):
+            try:
+                with guard():
+                    res = select_item_css(src, pos, prev)
+            except Exception as e:
+                rec.fail(core.exc_bucket(e), 'pos %d in %r: %s: %s' % (pos, src, type(e).__name__, e))
+                return
+            if res is None:
+                continue
+            s, e, rs = res.start, res.end, [tuple(r) for r in res.ranges]
+            if not (0 <= s <= e <= n) or any(not (s <= a <= b <= e) for a, b in rs):
+                rec.fail('select_item_css:%s:ill-formed' % ('previous' if prev else 'next'), 'pos %d in %r: item (%r, %r) ranges %r' % (pos, src, s, e, rs))
+                return
+
+
+CHECKS = {'html': check_html, 'css': check_css, 'css-bare': check_css_bare}
+
+
+def bare_documents():
+    decl = st.sampled_from(['color: red;', 'margin: 0 auto;', 'border: 1px solid blue;', '$v: 1;', 'a:b;'])
+    bare = st.sampled_from(['@include clearfix;', '@extend .a;', '@import "base";', '@include m(1px, 2px);', 'bare', '@content;'])
+    item = st.one_of(decl, decl, bare, bare)
+    body = st.lists(item, min_size=1, max_size=4).map(' '.join)
+    rule = st.builds(lambda sel, b, nested: '%s { %s%s }' % (sel, b, (' ' + nested) if nested else ''), st.sampled_from(['.a', 'a:hover', '@media (min-width: 1px)', '.b > li']), body,
+                     st.one_of(st.just(''), st.builds(lambda b: '.n { %s }' % b, body)))
+    top = st.one_of(rule, rule, bare, decl)
+    return st.lists(top, min_size=1, max_size=3).map(lambda xs: {'src': '\n'.join(xs) + '\n'})
 
 
 def css_documents():
@@ -297,6 +333,7 @@ def css_documents():
 def shard_random(ctx, shard, nshards, n):
     ctx.run_hypothesis('html', GH.documents(False, 18).map(lambda d: {'doc': d}), n, seed_key=shard)
     ctx.run_hypothesis('css', css_documents().map(lambda d: {'doc': d}), n, seed_key=100 + shard)
+    ctx.run_hypothesis('css-bare', bare_documents(), n, seed_key=200 + shard)
 
 
 def run(ctx):
